@@ -54,6 +54,7 @@ var (
 	errNoAuthenticator      = errors.New("packet does not contain an authenticator")
 	errNoCookies            = errors.New("packet does not contain cookies")
 	errNoUniqueID           = errors.New("packet does not contain a unique identifier")
+	errPacketTooLong        = errors.New("packet exceeds maximum NTS packet length")
 	errShortExtension       = errors.New("extension field length < 4 bytes")
 	errShortUniqueID        = errors.New("UniqueIdentifier.ID < 32 bytes")
 	errUnexpectedExtHdrType = errors.New("unexpected extension header type")
@@ -139,6 +140,9 @@ func EncodePacket(b *[]byte, pkt *Packet) {
 // checked, but an error is returned if b does not contain an
 // Autheticator or UniqueID extension field.
 func DecodePacket(pkt *Packet, b []byte) (err error) {
+	if len(b) > MaxPacketLen {
+		return errPacketTooLong
+	}
 	pos := ntpPacketLen
 	foundUniqueID := false
 	foundAuthenticator := false
@@ -357,6 +361,9 @@ func (u *UniqueIdentifier) unpack(buf []byte, pos int) error {
 		return errUnexpectedExtHdrType
 	}
 	valueLen := u.extHdr.Length - 4
+	if valueLen < 32 {
+		return errShortUniqueID
+	}
 	id := make([]byte, valueLen)
 	copy(id, buf[pos:])
 	u.ID = id
